@@ -8,6 +8,7 @@
 #include <map>
 #include <memory>
 #include <set>
+#include <type_traits>
 using namespace vf;
 
 static std::map<const void*, int> g_ids;       // live managed objects -> id (smallest free id, like CPtrA.FreshId)
@@ -22,13 +23,17 @@ struct Base : public tlx::ReferenceCounter {
 struct Derived : public Base { int extra = 7; };
 struct LogDeleter { template <class T> void operator()(T* p) const noexcept { ++g_deleter_calls; delete p; } };
 
-static const char* NAMES[] = {"new", "reset_handle", "unify", "copy_assign", "move_assign", "copy_construct", "move_construct", "swap", "swap"};
+static const char* NAMES[] = {"new", "reset_handle", "unify", "copy_assign", "move_assign", "copy_construct", "move_construct", "swap", "swap",
+                              "new", "reset_handle", "copy_assign", "assign_object"};
+// 9: make_counting (default deleter only)  10: a = nullptr  11: a = CountingPtr(b.get()) (intrusive: a raw pointer to a managed object)  12: *a = *b (the objects)
+template <class P, class T> static P make_new(std::true_type) { return tlx::make_counting<T>(); }
+template <class P, class T> static P make_new(std::false_type) { return P(new T()); }
 
 template <class D>
 static void run(Out& out, int deleter, std::istringstream& is) {
     using PB = tlx::CountingPtr<Base, D>;
     using PD = tlx::CountingPtr<Derived, D>;
-    g_ids.clear(); g_err = 0;
+    g_ids.clear(); g_err = 0; g_deleter_calls = 0; g_dtors = 0;
     std::unique_ptr<PB> b[4]; std::unique_ptr<PD> d[6];
     for (int i = 1; i <= 3; ++i) b[i].reset(new PB());
     for (int i = 4; i <= 5; ++i) d[i].reset(new PD());
@@ -42,12 +47,23 @@ static void run(Out& out, int deleter, std::istringstream& is) {
             bool uq = (id > 0) ? (h <= 3 ? b[h]->unique() : d[h]->unique()) : false;
             bool valid = h <= 3 ? b[h]->valid() : d[h]->valid();
             if (valid != (p != nullptr)) ++g_err;
+            bool emp = h <= 3 ? b[h]->empty() : d[h]->empty(); bool bl = h <= 3 ? bool(*b[h]) : bool(*d[h]);
+            if (emp == valid || bl != valid) ++g_err;
+            for (int k = 1; k <= 5; ++k) {          // comparison operators follow the pointer values
+                if ((h <= 3) != (k <= 3)) continue;
+                const Base* q = k <= 3 ? b[k]->get() : d[k]->get();
+                bool eq = h <= 3 ? (*b[h] == *b[k]) : (*d[h] == *d[k]), ne = h <= 3 ? (*b[h] != *b[k]) : (*d[h] != *d[k]);
+                bool lt = h <= 3 ? (*b[h] < *b[k]) : (*d[h] < *d[k]), ge = h <= 3 ? (*b[h] >= *b[k]) : (*d[h] >= *d[k]);
+                if (eq != (p == q) || ne != (p != q) || lt == ge) ++g_err;
+                bool eqr = h <= 3 ? (*b[h] == b[k]->get()) : (*d[h] == d[k]->get());
+                if (eqr != (p == q)) ++g_err;
+            }
             obs += std::string(h > 1 ? "," : "") + "{\"id\":" + std::to_string(id) + ",\"count\":" + std::to_string(cnt) + ",\"unique\":" + (uq ? "true" : "false") + "}";
         }
         obs += "]";
         std::vector<long long> live; for (auto& kv : g_ids) live.push_back(kv.second);
         std::sort(live.begin(), live.end());
-        ev.raw("obs", obs); ev.arr("live", live); ev.num("lerr", g_err).num("deleter", deleter);
+        ev.raw("obs", obs); ev.arr("live", live); ev.num("lerr", g_err).num("deleter", deleter).num("dcalls", g_deleter_calls).num("dtors", g_dtors);
         ev.emit(out);
     };
     { Ev ev("reset"); emit(ev); }
@@ -66,6 +82,10 @@ static void run(Out& out, int deleter, std::istringstream& is) {
         case 6: if (ab) { b[a].reset(); if (cb) b[a].reset(new PB(std::move(*b[c]))); else b[a].reset(new PB(std::move(*d[c]))); } else { d[a].reset(); d[a].reset(new PD(std::move(*d[c]))); } break;
         case 7: if (ab) b[a]->swap(*b[c]); else d[a]->swap(*d[c]); break;
         case 8: { using tlx::swap; if (ab) swap(*b[a], *b[c]); else swap(*d[a], *d[c]); break; }
+        case 9: { using IsDef = std::is_same<D, tlx::CountingPtrDefaultDeleter>; if (ab) *b[a] = make_new<PB, Base>(IsDef()); else *d[a] = make_new<PD, Derived>(IsDef()); break; }
+        case 10: if (ab) *b[a] = nullptr; else *d[a] = PD(nullptr); break;
+        case 11: if (ab && cb) *b[a] = PB(b[c]->get()); else if (ab) *b[a] = PB(d[c]->get()); else *d[a] = PD(d[c]->get()); break;
+        case 12: if (ab && cb) **b[a] = **b[c]; else if (ab) **b[a] = **d[c]; else *(d[a]->operator->()) = *(d[c]->get()); break;
         }
         emit(ev);
     }
